@@ -97,6 +97,42 @@ CHECKS['C06'] = dict(
          'repaired (C06-F1).',
     technique=TECH + '; in-run monitor + post-run probe against a reference relation')
 
+MON_NOTE = ('Decided only for the calls the simulated system itself issues and for probes derived from '
+            'the states its runs reach; synthetic declaration shapes beyond those are not claimed. '
+            'Trusted: sim/refrel.py and the snapshot functions of sim/snap.py.')
+CHECKS['C07'] = dict(
+    engine='pipeline-sim monitors', design='DESIGN.md §4 C07',
+    text='Every top-level TypeConstructor.new / substitute_type / to_variance_free / '
+         'to_type_variable_free call on the aliased type objects of simulated pipeline runs: '
+         'deep snapshots of all inputs before and after, a seeded ledger of earlier '
+         'instantiations, and comparison of the result with an independent substitution '
+         '(supertypes transitively); plus ground re-instantiation of every generic class of the '
+         'finished program.',
+    note=MON_NOTE, technique=TECH + '; in-run monitor: before/after snapshots + reference substitution')
+CHECKS['C08'] = dict(
+    engine='pipeline-sim monitors', design='DESIGN.md §4 C08',
+    text='Every instantiate_type_constructor / instantiate_parameterized_function call of '
+         'simulated runs plus re-instantiation of every generic declaration of the finished '
+         'program, judged for arity, bounds (after substituting the other arguments), usable '
+         'arguments, kept pre-assignments and permitted projections.',
+    note=MON_NOTE + ' One genuine defect repaired (C08-F1).',
+    technique=TECH + '; in-run monitor + post-run probe against a bounds/variance judgement')
+CHECKS['C09'] = dict(
+    engine='pipeline-sim monitors', design='DESIGN.md §4 C09',
+    text='Every find_subtypes / find_supertypes / find_irrelevant_type call of simulated runs '
+         '(generator, erasure analysis, overwriting) plus both searches re-run for types of the '
+         'finished program, judged against the reference relation over the final class table.',
+    note=MON_NOTE + ' One defect repaired (C09-F1), three known findings (C09-K1..K3).',
+    technique=TECH + '; in-run monitor + post-run probe against a reference relation')
+CHECKS['C10'] = dict(
+    engine='pipeline-sim monitors', design='DESIGN.md §4 C10',
+    text='Every non-empty unify_types result of simulated runs (same-type and supertype-matching '
+         'mode) plus probe unifications derived from the instantiations of the finished program '
+         '(ground positions made right and wrong, repeated variables) checked against the '
+         'substitute-back law and the bound conditions.',
+    note=MON_NOTE,
+    technique=TECH + '; in-run monitor + post-run probe: substitute-back law')
+
 NOT_YET = {
 }
 
